@@ -22,7 +22,14 @@ schedule = {
                         with the request's M=0 has arrived.  ["a"] atomic, ["s"] stateless, anything else mixed,
   "ackcode": 68 | 65,
   "net":   {"<i>": "dropreq"|"dropresp"|"dupresp"|"dupreq"}   fate of the i-th request datagram the SUT sends (1-based),
-  "fault": None | {"kind": "b1num"|"b1more"|"b1cont"|"b2num"|"b2skip"|"b2short"|"b2empty"|"b2over"|"etag", "nth": n,
+  "query": ["v=2", ...] | None, "accept": n | None      further options of the request (part of its cache key),
+  "fault": None | {"kind": "b1num"|"b1numlo"|"b1more"|"b1cont"|"b2num"|"b2numlo"|"b2skip"|"b2prev"|"b2short"|"b2empty"|
+                           "b2over"|"etag", "nth": n,
+           b1num / b1numlo: the acknowledgement names NUM+1 / NUM-1 (lo: only where NUM > 0);
+           b2num / b2numlo: the right bytes under NUM+1 / NUM-1;  b2skip / b2prev: the next / the previous block is
+           served instead of the requested one (number and bytes consistent; prev: only from the second block on);
+           etag: representation 2 from the n-th Block2 response on; whether representation 1 / 2 carry an ETag is
+           reps[i]["etag"] (independent: ETag/ETag, none/ETag, ETag/none, none/none),
                    "short": bytes, "over": "one"|"double", "repeat": bool},
            b2short / b2empty / b2over: a Block2 block that announces more blocks (M=1) but carries 1..size-1 bytes /
            no payload at all / more than its size (size+1, or two whole blocks; only where two more blocks exist);
@@ -54,7 +61,10 @@ FIELDS = {
     "b1n": -1, "b1m": -1, "b1s": -1, "b2n": -1, "b2m": -1, "b2s": -1,
     "plen": 0, "cid": -1, "off": -1, "cok": True,
     "size1": -1, "len": -1, "etag": -1, "rid": 0, "rt": False, "x": "", "c": -1,
+    "rk": 0,   # req: 1 = same method and options (all but Block1/Block2/Size1/Size2) as the first request, 2.. = others
 }
+
+NOT_IN_KEY = (wire.BLOCK1, wire.BLOCK2, wire.SIZE1, wire.SIZE2)
 
 
 def size_of(szx):
@@ -109,6 +119,7 @@ def run(sched):
         "delivered": set(),
         "seen": [],        # datagrams the SUT sent
         "fired": None,
+        "keys": [],        # distinct (method, options) of the requests seen, in order of appearance
     }
 
     def pick(lst, i):
@@ -160,6 +171,9 @@ def run(sched):
             if fault_wants("b1num", count, deliverable):
                 anum, x = num + 1, "b1num"
                 fire(x)
+            if not x and num > 0 and fault_wants("b1numlo", count, deliverable):
+                anum, x = num - 1, "b1numlo"
+                fire(x)
             if more and pick(ackstyle, count) == "s":
                 # stateless style: this block has been enacted on its own
                 f.update(b1n=anum, b1m=0, b1s=aszx)
@@ -199,6 +213,11 @@ def run(sched):
             new_rep(1)
             x = "etag"
             fire(x)
+        if not final and not x and srv["rep"]["rid"] == 1 and keyno(m) != 1:
+            # a continuation that asks for something else than the request did (other method / options): an RFC 7959
+            # server answers it from what *it* asks for -- another representation
+            new_rep(1)
+            x = "otherkey"
         rep = srv["rep"]
         M = rep["len"]
         want = pick(s2, count)
@@ -235,6 +254,17 @@ def run(sched):
             num += 1
             x = "b2num"
             fire(x)
+        if not x and num > 0 and fault_wants("b2numlo", count, deliverable):
+            num -= 1
+            x = "b2numlo"
+            fire(x)
+        if not x and off >= size and fault_wants("b2prev", count, deliverable):
+            off -= size
+            num = off // size
+            more = True
+            plen = size
+            x = "b2prev"
+            fire(x)
         if not x and more and fault_wants("b2short", count, deliverable):
             plen = max(1, min(size - 1, fault.get("short", size - 1)))
             x = "b2short"
@@ -251,6 +281,12 @@ def run(sched):
         options.append((wire.BLOCK2, wire.block(num, more, szx)))
         f.update(b2n=num, b2m=int(more), b2s=szx, cid=rep["cid"] if plen else -1, off=off if plen else -1)
         return code, options, out, dict(f, x=x)
+
+    def keyno(m):
+        key = (m["code"], tuple((n, v) for n, v in m["options"] if n not in NOT_IN_KEY))
+        if key not in srv["keys"]:
+            srv["keys"].append(key)
+        return srv["keys"].index(key) + 1
 
     def inject(data):
         w.net.inject(state["sock"], data, sockaddr(1))
@@ -280,7 +316,7 @@ def run(sched):
             f.update(b2n=n_, b2m=int(m_), b2s=s_)
         cid, off, cok = locate(m["payload"], [REQ_CID], hint)
         sz1 = wire.opt(m, wire.SIZE1)
-        ev("req", q=1, code=m["code"], plen=len(m["payload"]), cid=cid, off=off, cok=cok, rt=rt,
+        ev("req", q=1, code=m["code"], plen=len(m["payload"]), cid=cid, off=off, cok=cok, rt=rt, rk=keyno(m),
            size1=-1 if sz1 is None else wire.from_uint(sz1), **f)
         # a client that keeps asking for the same block is cut off: no more answers (it then runs into its timeout)
         if b2 is not None and b1 is None and not rt:
@@ -340,6 +376,10 @@ def run(sched):
         kw = {}
         if not sched.get("con", True):
             kw["transport_tuning"] = type("VT", (TransportTuning,), {"reliability": False})()
+        if sched.get("query"):
+            kw["uri_query"] = tuple(sched["query"])
+        if sched.get("accept") is not None:
+            kw["accept"] = sched["accept"]
         msg = Message(code=Code(sched.get("code", 2)), uri_path=["c05"], payload=canon(REQ_CID, 0, N), **kw)
         msg.remote = w.remote(ctx, 1)
         msg.remote.maximum_block_size_exp = C
